@@ -227,7 +227,11 @@ class Type4Tag(nfc.tag.Tag):
             (p1, p2) = pack(">H", offset)
             max_data = min(self._max_le, size)
             log.debug("read_binary from %d to %d", offset, offset + max_data)
-            return self.tag.send_apdu(0, 0xB0, p1, p2, mrl=max_data)
+            data = self.tag.send_apdu(0, 0xB0, p1, p2, mrl=max_data)
+            if len(data) > max(max_data, 0):
+                log.debug("read_binary response longer than requested")
+                raise Type4TagCommandError(nfc.tag.PROTOCOL_ERROR)
+            return data
 
         def _update_binary(self, offset, data):
             (p1, p2) = pack(">H", offset)
